@@ -87,7 +87,7 @@ type server struct {
 	storage Storage
 	clock   func() bigtable.Timestamp
 
-	mu     sync.Mutex
+	mu     serverMutex
 	tables map[string]*table // keyed by fully qualified name
 	done   chan struct{}     // closed when server shuts down
 
@@ -1255,7 +1255,7 @@ func (s *server) SampleRowKeys(req *btpb.SampleRowKeysRequest, stream btpb.Bigta
 	var err error
 	var lastRow *btpb.Row
 	tbl.rows.Ascend(func(r *btpb.Row) bool {
-		if rand.Int31n(100) == 0 {
+		if randInt31n(100) == 0 {
 			resp := &btpb.SampleRowKeysResponse{
 				RowKey:      r.Key,
 				OffsetBytes: offset,
@@ -1282,6 +1282,9 @@ func (s *server) SampleRowKeys(req *btpb.SampleRowKeysRequest, stream btpb.Bigta
 }
 
 func (s *server) gcloop() {
+	if !gcloopEnabled() {
+		return
+	}
 	const (
 		minWait = 15000 // ms
 		maxWait = 60000 // ms
@@ -1319,7 +1322,7 @@ func (s *server) gcloop() {
 }
 
 type table struct {
-	mu   sync.RWMutex
+	mu   tableMutex
 	def  *btapb.Table
 	rows Rows // indexed by row key
 
@@ -1331,7 +1334,7 @@ func newTable(tbl *btapb.Table, rows Rows) *table {
 	if tbl.ColumnFamilies == nil {
 		tbl.ColumnFamilies = map[string]*btapb.ColumnFamily{}
 	}
-	realNow := time.Now().UnixNano()
+	realNow := wallNow().UnixNano()
 	return &table{
 		def:            tbl,
 		lastReadNanos:  realNow,
@@ -1378,7 +1381,7 @@ func (t *table) gc(now bigtable.Timestamp, done <-chan struct{}, force bool) {
 		const quiesceNanos = int64(5 * time.Minute)
 		lr := atomic.LoadInt64(&t.lastReadNanos)
 		lw := atomic.LoadInt64(&t.lastWriteNanos)
-		realNow := time.Now().UnixNano()
+		realNow := wallNow().UnixNano()
 		if lw == 0 || realNow-lw < quiesceNanos || realNow-lr < quiesceNanos {
 			return
 		}
@@ -1439,7 +1442,7 @@ func (t *table) gc(now bigtable.Timestamp, done <-chan struct{}, force bool) {
 }
 
 func (t *table) read() {
-	now := time.Now().UnixNano()
+	now := wallNow().UnixNano()
 	for {
 		old := atomic.LoadInt64(&t.lastReadNanos)
 		if now < old {
@@ -1452,7 +1455,7 @@ func (t *table) read() {
 }
 
 func (t *table) write() {
-	now := time.Now().UnixNano()
+	now := wallNow().UnixNano()
 	for {
 		old := atomic.LoadInt64(&t.lastWriteNanos)
 		if now < old {
